@@ -22,6 +22,11 @@ pub enum Case {
     /// union of two Bloom filters / merge of two u8 sketches of this size (C06)
     BloomUnion { m: usize, k: usize, seed: u64 },
     CmsMerge { w: usize, d: usize, seed: u64 },
+    /// union of quotient filters whose operand holds one cluster made of a run of `run` classes followed by `followers`
+    /// occupied buckets (hundreds of runs pending at once while the cluster is walked); `wrap` starts it before the ring end
+    QuotientManyRuns { q: usize, r: usize, run: u32, followers: u32, wrap: bool },
+    /// a failing union of two large cuckoo filters (tens of thousands of fingerprints moved and rolled back)
+    CuckooBigFailedUnion { lg_buckets: u32, na: u32, nb: u32, seed: u64 },
     /// BloomFilter::with_properties_and_hash(n, p) for n >= 2^32
     BloomProps { n: usize, p: f64, seed: u64 },
     /// CuckooFilter::with_properties_and_hash_4 / _8 (bucketsize 4 / 8) for n >= 2^31
@@ -315,6 +320,92 @@ fn cms_merge(w: usize, d: usize, seed: u64) -> Result<u64, (String, String)> {
     Ok(160)
 }
 
+fn quotient_many_runs(q: usize, r: usize, run: u32, followers: u32, wrap: bool) -> Result<u64, (String, String)> {
+    let bh = GenBH(HKind::Ident);
+    let n = 1u64 << q;
+    let key = |quot: u64, rem: u64| ((quot % n) << r) | rem;
+    let start = if wrap { n - (run as u64 / 2).min(n / 4) - 3 } else { 17 };
+    let mut b: QuotientFilter<u64, GenBH> = QuotientFilter::with_params_and_hash(q, r, bh);
+    let mut a: QuotientFilter<u64, GenBH> = QuotientFilter::with_params_and_hash(q, r, bh);
+    let mut both: QuotientFilter<u64, GenBH> = QuotientFilter::with_params_and_hash(q, r, bh);
+    let mut kb: Vec<u64> = vec![];
+    for d in 1..=followers as u64 {
+        kb.push(key(start + d, d % 5));
+    }
+    for i in 0..run as u64 {
+        kb.push(key(start, i));
+    }
+    let ka: Vec<u64> = vec![key(start + n / 2, 1), key(start + n / 2 + 1, 2), key(start.wrapping_sub(2) % n, 3)];
+    for x in &kb {
+        if !matches!(b.insert(x), Ok(true)) {
+            return Err(("many-runs:setup".into(), format!("setup insert of {:#x} did not return Ok(true)", x)));
+        }
+    }
+    for x in &ka {
+        a.insert(x).map_err(|_| ("many-runs:setup".to_string(), "setup insert failed".to_string()))?;
+        both.insert(x).map_err(|_| ("many-runs:setup".to_string(), "setup insert failed".to_string()))?;
+    }
+    for x in &kb {
+        both.insert(x).map_err(|_| ("many-runs:setup".to_string(), "setup insert failed".to_string()))?;
+    }
+    if a.union(&b).is_err() {
+        return Err(("many-runs:union-err".into(), format!("union returned Err although {} + {} classes fit 2^{} slots", ka.len(), kb.len(), q)));
+    }
+    if a.len() != ka.len() + kb.len() {
+        return Err(("many-runs:len".into(), format!("len() = {} after the union of {} and {} distinct classes", a.len(), ka.len(), kb.len())));
+    }
+    if let Some(x) = ka.iter().chain(kb.iter()).find(|x| !a.query(x)) {
+        return Err(("many-runs:false-negative".into(), format!("query({:#x}) is false after the union although an operand held the class (q={}, r={}, run {}, {} followers)", x, q, r, run, followers)));
+    }
+    // never inserted classes in and around the cluster
+    for d in 0..=(followers as u64 + 2) {
+        let probe = key(start + d, 7 + run as u64);
+        if a.query(&probe) != both.query(&probe) {
+            return Err(("many-runs:!=sequential".into(), format!("query({:#x}) = {} after the union but {} in a filter that saw both streams", probe, a.query(&probe), both.query(&probe))));
+        }
+    }
+    if let Some(x) = kb.iter().find(|x| !b.query(x)) {
+        return Err(("many-runs:operand-changed".into(), format!("the operand lost class {:#x}", x)));
+    }
+    Ok((ka.len() + kb.len()) as u64 * 2)
+}
+
+fn cuckoo_big_failed_union(lg: u32, na: u32, nb: u32, seed: u64) -> Result<u64, (String, String)> {
+    let bh = GenBH(HKind::Seeded(seed % 1000));
+    let nbk = 1usize << lg;
+    let mut a: CuckooFilter<u64, SmRng, GenBH> = CuckooFilter::with_params_and_hash(SmRng::new(seed), 4, nbk, 24, bh);
+    let mut b: CuckooFilter<u64, SmRng, GenBH> = CuckooFilter::with_params_and_hash(SmRng::new(seed ^ 5), 4, nbk, 24, bh);
+    let ka: Vec<u64> = (0..na as u64).map(|i| mix(seed, i) << 1).collect();
+    let kb: Vec<u64> = (0..nb as u64).map(|i| (mix(seed ^ 0x77, i) << 1) | 1).collect();
+    for x in &ka {
+        a.insert(x).map_err(|_| ("big-union:setup".to_string(), "filling a failed".to_string()))?;
+    }
+    for x in &kb {
+        b.insert(x).map_err(|_| ("big-union:setup".to_string(), "filling b failed".to_string()))?;
+    }
+    let before_len = a.len();
+    let probes: Vec<u64> = ka.iter().copied().chain(kb.iter().copied().take(20_000)).chain((0..20_000u64).map(|i| mix(seed ^ 0x4242, i) | (1 << 63))).collect();
+    let before: Vec<bool> = probes.iter().map(|x| a.query(x)).collect();
+    if a.union(&b).is_ok() {
+        // fits after all: then everything must be present
+        if let Some(x) = ka.iter().chain(kb.iter()).find(|x| !a.query(x)) {
+            return Err(("big-union:false-negative".into(), format!("query({}) false after a successful union", x)));
+        }
+        return Ok(probes.len() as u64);
+    }
+    if a.len() != before_len {
+        return Err(("big-union:failed-union-changes-len".into(), format!("len() {} -> {} across a failed union", before_len, a.len())));
+    }
+    let changed = probes.iter().zip(before.iter()).filter(|(x, &w)| a.query(x) != w).count();
+    if changed > 0 {
+        return Err(("big-union:failed-union-changes-query".into(), format!("union returned Err but query() changed for {} of {} probed elements (2^{} buckets of 4, {} + {} elements)", changed, probes.len(), lg, na, nb)));
+    }
+    if let Some(x) = kb.iter().take(20_000).find(|x| !b.query(x)) {
+        return Err(("big-union:operand-changed".into(), format!("the operand lost element {}", x)));
+    }
+    Ok(probes.len() as u64)
+}
+
 impl Check for Giant {
     type Case = Case;
     fn name(&self) -> &'static str {
@@ -334,6 +425,8 @@ impl Check for Giant {
             Case::Cms { w, d, seed } => cms(w, d, seed),
             Case::BloomUnion { m, k, seed } => bloom_union(m, k, seed),
             Case::CmsMerge { w, d, seed } => cms_merge(w, d, seed),
+            Case::QuotientManyRuns { q, r, run, followers, wrap } => quotient_many_runs(q, r, run, followers, wrap),
+            Case::CuckooBigFailedUnion { lg_buckets, na, nb, seed } => cuckoo_big_failed_union(lg_buckets, na, nb, seed),
             Case::BloomProps { n, p, seed } => props(true, 0, n, p, seed),
             Case::CuckooProps { bucketsize, n, p, seed } => props(false, bucketsize, n, p, seed),
         });
@@ -377,5 +470,15 @@ pub fn props_cases(seed: u64) -> Vec<Case> {
 }
 
 pub fn union_cases(seed: u64) -> Vec<Case> {
-    vec![Case::BloomUnion { m: (1usize << 32) + 15, k: 3, seed }, Case::CmsMerge { w: (1usize << 31) + 3, d: 1, seed: seed ^ 1 }]
+    vec![
+        Case::BloomUnion { m: (1usize << 32) + 15, k: 3, seed },
+        Case::CmsMerge { w: (1usize << 31) + 3, d: 1, seed: seed ^ 1 },
+        Case::QuotientManyRuns { q: 11, r: 16, run: 320, followers: 330, wrap: false },
+        Case::QuotientManyRuns { q: 12, r: 12, run: 700, followers: 600, wrap: true },
+        Case::QuotientManyRuns { q: 10, r: 9, run: 260, followers: 270, wrap: false },
+    ]
+}
+
+pub fn failed_union_cases(seed: u64) -> Vec<Case> {
+    vec![Case::CuckooBigFailedUnion { lg_buckets: 15, na: 60_000, nb: 75_000, seed }, Case::CuckooBigFailedUnion { lg_buckets: 15, na: 67_000, nb: 67_000, seed: seed ^ 1 }]
 }
